@@ -21,7 +21,7 @@ def break_ties(scn, rng):
         ini, ch, ties = rm.control_timeline(scn)
         if not ties:
             return True
-        tied = set(tg for _, tg in ties)
+        tied = sorted(set(tg for _, tg in ties))      # sorted: set order depends on the interpreter's hash seed
         for tg in tied:
             for kind in ('rule', 'simple'):
                 cs = [c for c in scn['controls'] if c['kind'] == kind and any((a['link'], a['attr']) == tg for a in c['then'] + c.get('else', []))]
@@ -37,7 +37,7 @@ def break_ties(scn, rng):
         if not ties:
             return True
         # rule meets simple control on the same target and instant: drop the simple controls involved
-        for t, tg in ties:
+        for t, tg in sorted(ties):
             for c in list(scn['controls']):
                 if c['kind'] == 'simple' and (c['then'][0]['link'], c['then'][0]['attr']) == tg and t in rm.simple_instants(c['cond'], scn['options']):
                     scn['controls'].remove(c)
